@@ -4,9 +4,9 @@ from __future__ import annotations
 
 from . import _checks as K
 from ._adapters import ADAPTERS
-from ._layouts import translate  # noqa: F401  (T1)
+from ._layoutsw import translate  # noqa: F401  (T1: Gen/Layouts and Gen/LayoutsW)
 
-MODULES = ["Iodata.Props.C02"]
+MODULES = ["Iodata.Props.C02", "Iodata.Props.C02W"]
 RULE = (
     "per format, quantised objects (a printed real is the integer round(|x|*10^d) and a sign; a scientific field is the pair "
     "(d+1 mantissa digits, decimal exponent)). XYZ/SDF/PDB: atom counts cycle through 1,2,3,9,10,11,99,100,101,999,1000,1001,"
@@ -57,6 +57,7 @@ ASSUMPTIONS = [
     "byte for byte on every generated case)",
 ]
 TIME_LIMIT = {"quick": 1200, "thorough": 7200}
+from . import _w as _W; RULE, TRUSTED, ASSUMPTIONS = RULE + _W.RULE, TRUSTED + _W.TRUSTED, ASSUMPTIONS + _W.ASSUMPTIONS  # noqa: E402, E702
 
 RW = ["xyz", "sdf", "pdb"]  # + mol2, cube, fchk fields, fcidump/poscar structure layers (own flows)
 
@@ -81,6 +82,7 @@ def correspond(ctx):
     _fchk.corr_fields(ctx, ctx.n(2000, 8000))
     _fchk.corr_objects(ctx, ctx.n(800, 3000))
     _fchk.corr_shuffles(ctx)
+    from . import _w; _w.correspond(ctx)  # second group of formats (FCIDUMP text, POSCAR text, FCHK objects, WFN/WFX, QCSchema)
 
 
 def search(ctx):
@@ -94,7 +96,8 @@ def search(ctx):
     from ._fchk import FCHK_FREE
 
     K.search_c02(ctx, FCHK_FREE, ctx.n(800, 3000) * mult)
+    from . import _w; _w.search(ctx)  # second group of formats (FCIDUMP text, POSCAR text, FCHK objects, WFN/WFX, QCSchema)
 
 
 def replay(ctx, obj):
-    return K.replay_generic(ctx, obj)
+    from . import _w; return _w.replay_or(ctx, obj, K.replay_generic)
